@@ -3,7 +3,8 @@
    [x_query XP P te sc q] traverses the query exactly like [o_query] of Model/SqlScope.v (same environments, same FROM
    frames, same alias lists per clause) and emits one further obligation
      * per column reference: the reference is not AMBIGUOUS -- a bare column is exposed by at most one column of the
-       nearest FROM frame that exposes it (unless it is a select-list alias where the clause admits one), a qualified
+       nearest FROM frame that exposes it (where the clause admits select-list / output names and the column is one: at
+       most one output column has the name), a qualified
        column [q.c] names at most one column of the relation known as [q].  Relations keep their duplicate output names
        ([out_items] does), so this is also "a sub-query / CTE with two output columns of one name is not referenced by
        that name from outside";
@@ -210,7 +211,7 @@ Section XObls.
 
   Definition xobl_ok (o : xobl) : bool :=
     match o with
-    | XAmbBare sc al _ c => mem c al || Nat.leb (bare_count sc c) 1
+    | XAmbBare sc al _ c => Nat.leb (if mem c al then count_name c al else bare_count sc c) 1
     | XAmbQual sc _ q c => Nat.leb (qual_count sc q c) 1
     | XWFrame u s e n => frame_valid u s e n
     | XGrouped kc ks outs _ q c =>
